@@ -701,6 +701,11 @@ func genFsHdr(r *Rng) *fsHdr {
 	h := &fsHdr{MTime: Pick(r, []int64{0, 1, 1700000000}), Mode: int64(Pick(r, []int{0o644, 0o755, 0o4755, 0o600})), Sum: "-"}
 	h.Pkg = Pick(r, []string{"pa", "pb", "pc"})
 	h.Origin = Pick(r, []string{"oa", "ob", ""})
+	if r.Chance(6) {
+		// file-type bits in the header's MODE FIELD (c_ISDIR, c_ISLNK, c_ISBLK, c_ISFIFO, c_ISSOCK, c_ISREG, c_ISCHR):
+		// the type of an entry is its typeflag; what the field claims on top must not shape the node
+		h.Mode |= int64(Pick(r, []int{0o40000, 0o120000, 0o60000, 0o10000, 0o140000, 0o100000, 0o20000}))
+	}
 	if r.Chance(30) {
 		h.Replaces = []string{Pick(r, []string{"pa", "pb", "pc"})}
 	}
